@@ -121,7 +121,7 @@ func vGenMediaTable(g int) vTable {
 
 // vGenRoots: root path shapes of WebServices. Every unordered pair (and every single one) becomes a table of one or
 // two services, each with the routes GET / and GET /e. Mirrored in /verif/engine/cmd/gosmt/gentables.go.
-var vGenRoots = []string{"/a", "/a/b", "/{v}", "/{v:[0-9]+}", "/{v}.x", "/p{v}", "/a/{v}", "/{v}/b", "/a/{v}.x", "/{v:[0-9]*}", "/", "/a/{v:[0-9]+}"}
+var vGenRoots = []string{"/a", "/a/b", "/{v}", "/{v:[0-9]+}", "/{v}.x", "/p{v}", "/a/{v}", "/{v}/b", "/a/{v}.x", "/{v:[0-9]*}", "/", "/a/{v:[0-9]+}", "/{v}/{u}"}
 
 func vGenRootDecode(g int) (i, j int) {
 	n := len(vGenRoots)
